@@ -38,6 +38,7 @@ class SimEvent:
 				ns = 0
 			late = sim.faults.next("wake-latency") if sim.faults is not None else 0
 			sim.record("wait-enter", thread=t.name, timeout_ns=ns, late=late)
+			t.wake_at = sim.now + ns + late
 			sim.at(sim.now + ns + late, lambda: t.wake(wid, "timeout"))
 		sim.block(t)
 		return self._flag
